@@ -729,11 +729,20 @@ fn unify(batches: Vec<RecordBatch>) -> Result<Vec<RecordBatch>> {
 /// survive as a zero-row batch, or the merge stage cannot even register the
 /// partial table (Q20-shaped TopN over a selective filter hits this).
 pub fn decode_ipc(bytes: &[u8]) -> Result<Vec<RecordBatch>> {
-    let reader = arrow::ipc::reader::StreamReader::try_new(std::io::Cursor::new(bytes), None)?;
+    let mut reader = arrow::ipc::reader::StreamReader::try_new(std::io::Cursor::new(bytes), None)?;
     let schema = reader.schema();
     let mut out = Vec::new();
-    for b in reader {
+    for b in reader.by_ref() {
         out.push(b?);
+    }
+    // A stream cut exactly at a message boundary reads as a shorter, perfectly
+    // valid stream. Only the end-of-stream marker the writer's `finish()`
+    // emits proves the payload is complete; without it this is a truncated
+    // fragment answer, and merging it would be a partial answer.
+    if !reader.is_finished() {
+        return Err(QueryError::Execution(
+            "fragment result is truncated: the Arrow IPC stream has no end-of-stream marker".into(),
+        ));
     }
     if out.is_empty() {
         out.push(RecordBatch::new_empty(schema));
